@@ -65,6 +65,10 @@ class AstToODataVisitor(visitor.NodeVisitor):
         """:meta private:"""
         return "duration'" + node.val + "'"
 
+    def visit_Geography(self, node: ast.Geography) -> str:
+        """:meta private:"""
+        return "geography'" + node.val + "'"
+
     def _visit_Literal(self, node: LiteralValNode) -> str:
         """:meta private:"""
         return node.val
